@@ -127,7 +127,12 @@ impl Scenario for C09 {
         }
     }
     fn outs(&self) -> Vec<Out> {
-        vec![Out::Ok, Out::Err(0)]
+        if self.cfg.custom_classifier {
+            // errors of kind 1 are ones the custom classifier does not count as failures
+            vec![Out::Ok, Out::Err(0), Out::Err(1)]
+        } else {
+            vec![Out::Ok, Out::Err(0)]
+        }
     }
     fn allow(&self, _w: &World, _x: &X, h: &[Action], a: &Action) -> bool {
         let c = Counts::of(h);
